@@ -9,7 +9,7 @@ RULE = ("exhaustive part (every tier): every Boolean function of 1, 2 and 3 vari
         "and once as a CNF over tn.symbols(N) (constants via tn.true/tn.false), paired with a second function for implies/equiv; "
         "helper part: all/any/none/one/presence/absence/true/false with every kind of `which` argument (None, int, list, empty list) for N<=4; "
         "random part: formula trees over 2..4 (mostly 4) variables with ~ & | ^, the helpers as leaves, depth <= 5, with intermediate "
-        "rounding on every binary node (mode round | round_tt | round_tucker) or none (predicted TT rank capped at 200), under default dtype "
+        "rounding on every binary node (mode round | round_tt | round_tucker) or none (without TT rounding the predicted TT ranks of f, g and of the products f&~g the predicates form are capped at 600), under default dtype "
         "float64 (float32 only for round-free, xor-free formulas whose arithmetic is exact on small integers). "
         "Per formula: decompressed table vs NumPy truth table (1e-9; 1e-5 under float32), tn.sum vs number of satisfying assignments, "
         "is_tautology/is_contradiction/is_satisfiable, implies/equiv against a second formula, relevant_symbols/irrelevant_symbols vs the "
@@ -102,6 +102,15 @@ def pred_rank(tree):
     return a * b if t == "and" else a + b + a * b
 
 
+RANK_CAP = 600
+
+
+def fits(tree, other):
+    """the unrounded formulas (and the products f & ~g, g & ~f, f & ~f the predicates form) stay below RANK_CAP"""
+    a, b = pred_rank(tree), pred_rank(other)
+    return max(a * (b + 1), b * (a + 1), a * (a + 1)) <= RANK_CAP
+
+
 def n_connectives(tree):
     t = tree[0]
     if t == "not":
@@ -121,9 +130,10 @@ def cases(rng, tier):
             for form in ("dnf", "cnf"):
                 tree = dnf(tab, N) if form == "dnf" else cnf(tab, N)
                 otab = table_of(other, N)
-                out.append({"kind": "exhaustive", "N": N, "code": code, "form": form, "tree": tree,
-                            "other": cnf(otab, N) if form == "dnf" else dnf(otab, N), "othercode": other,
-                            "rounding": None, "dd": "float32" if rng.random() < 0.2 else "float64"})
+                otree = cnf(otab, N) if form == "dnf" else dnf(otab, N)
+                small = fits(tree, otree)
+                out.append({"kind": "exhaustive", "N": N, "code": code, "form": form, "tree": tree, "other": otree, "othercode": other,
+                            "rounding": None if small else "round", "dd": "float32" if (small and rng.random() < 0.2) else "float64"})
     # helpers
     nh = {"quick": 120, "thorough": 1500, "search": 500}[tier]
     for _ in range(nh):
@@ -138,8 +148,8 @@ def cases(rng, tier):
             tree = [h, rnd_which(rng, N, allow_empty=False)]
         else:
             tree = [h, rnd_which(rng, N)]
-        out.append({"kind": "helper", "N": N, "tree": tree, "other": rnd_tree(rng, N, 2), "rounding": None,
-                    "dd": "float32" if rng.random() < 0.2 else "float64"})
+        dd = "float32" if rng.random() < 0.2 else "float64"
+        out.append({"kind": "helper", "N": N, "tree": tree, "other": rnd_tree(rng, N, 2, allow_xor=(dd == "float64")), "rounding": None, "dd": dd})
     # random deep formulas
     nr = {"quick": 160, "thorough": 3000, "search": 900}[tier]
     for i in range(nr):
@@ -150,7 +160,7 @@ def cases(rng, tier):
         for _ in range(200):
             tree = rnd_tree(rng, N, depth, allow_xor=(dd == "float64"))
             other = rnd_tree(rng, N, rng.randint(1, 3), allow_xor=(dd == "float64"))
-            if rounding is not None or (pred_rank(tree) <= 200 and pred_rank(other) <= 200):
+            if rounding in ("round", "round_tt") or fits(tree, other):
                 break
         else:
             tree, other = ["sym", 0], ["true"]
@@ -250,13 +260,24 @@ def build(tree, N, syms, rounding):
     return getattr(tn, t)(N) if w is None else getattr(tn, t)(N, w)
 
 
+def has_op(tree, op):
+    return tree[0] == op or any(isinstance(x, list) and x and isinstance(x[0], str) and has_op(x, op) for x in tree[1:] if isinstance(x, list))
+
+
 def operand_class(t, case):
-    c = "TT cores with Tucker factors" if any(U is not None for U in t.Us) else "plain TT cores"
-    if case["rounding"] is not None:
-        c += ", built with intermediate %s()" % case["rounding"]
+    """stable input-class predicate: format of the formula tensor (+ default dtype when it is not float64)"""
+    c = "formula tensor has Tucker factors (e.g. after t.round())" if any(U is not None for U in t.Us) else "formula tensor is plain TT"
     if case["dd"] == "float32":
         c += ", default dtype float32"
     return c
+
+
+def numeric_class(case):
+    """predicate for the norm/sum-threshold predicates: what kind of float noise the formula carries"""
+    x = has_op(case["tree"], "xor") or has_op(case["other"], "xor")
+    if case["rounding"] in ("round", "round_tt"):
+        return "formula built with intermediate TT rounding"
+    return "formula built without TT rounding (formal ranks multiply)" + (", uses ^ (cores scaled by 2**(1/N))" if x else ", integer cores")
 
 
 def run_case(ctx, case):
@@ -287,6 +308,7 @@ def run_case(ctx, case):
         return
     f, g = res[1]
     ocls = operand_class(f, case)
+    ncls = ocls + "; " + numeric_class(case)
     ctx.count("operand:" + ("tucker" if any(U is not None for U in f.Us) else "tt"))
 
     def call(name, fn):
@@ -333,12 +355,12 @@ def run_case(ctx, case):
             ctx.oracle("%s returned %s, not a bool" % (name, type(r).__name__), case, cls={"op": name, "predicate": "non-bool result on " + ocls})
         if bool(r) != bool(exp):
             ctx.count("pred_mismatch:" + name)
-            ctx.oracle("%s = %s, truth table says %s" % (name, bool(r), exp), case, cls={"op": name, "predicate": ocls})
+            ctx.oracle("%s = %s, truth table says %s" % (name, bool(r), exp), case, cls={"op": name, "predicate": ncls})
 
     # (d) binary predicates against a second formula (only if its own table is right: checked here, reported under its own case kind)
     dg = with_dd(dd, lambda: safe(lambda: g.torch().detach().double().numpy()))
     if dg[0] == "ok" and close(dg[1], otab.astype(np.float64), rtol=tol)[0]:
-        gcls = ocls + " / second operand " + ("with Tucker factors" if any(U is not None for U in g.Us) else "plain TT")
+        gcls = ncls
         for name, fn, exp in (("implies", lambda: tn.implies(f, g), bool(np.all(~tab | otab))),
                               ("implies(reversed)", lambda: tn.implies(g, f), bool(np.all(~otab | tab))),
                               ("equiv", lambda: tn.equiv(f, g), bool(np.array_equal(tab, otab))),
@@ -356,11 +378,14 @@ def run_case(ctx, case):
     rel_exp = depends_on(tab, N)
     irr_exp = [n for n in range(N) if n not in rel_exp]
     rel = call("relevant_symbols", lambda: [int(n) for n in tn.relevant_symbols(f)])
-    if rel is not None and sorted(rel) != rel_exp:
+    rel_bad = rel is not None and sorted(rel) != rel_exp
+    if rel_bad:
         ctx.count("relevant_mismatch")
         ctx.oracle("relevant_symbols = %s, the table depends on %s" % (rel, rel_exp), case, cls={"op": "relevant_symbols", "predicate": ocls})
     irr = call("irrelevant_symbols", lambda: [int(n) for n in tn.irrelevant_symbols(f)])
-    if irr is not None and sorted(irr) != irr_exp:
+    if irr is not None and sorted(irr) != irr_exp and rel_bad:
+        ctx.count("irrelevant_mismatch(consequence of relevant_symbols)")   # irrelevant_symbols = complement of relevant_symbols: same defect
+    elif irr is not None and sorted(irr) != irr_exp:
         ctx.oracle("irrelevant_symbols = %s, the table does not depend on %s" % (irr, irr_exp), case,
                    cls={"op": "irrelevant_symbols", "predicate": ocls})
 
@@ -371,7 +396,9 @@ def run_case(ctx, case):
     o = call("only", lambda: tn.only(f).torch().detach().double().numpy())
     if o is not None:
         ok, err = close(o, otab2.astype(np.float64), rtol=tol)
-        if not ok:
+        if not ok and rel_bad:
+            ctx.count("only_mismatch(consequence of relevant_symbols)")         # only() masks with absence(irrelevant_symbols): same defect
+        elif not ok:
             ctx.count("only_mismatch")
             ctx.oracle("only(t) differs from 'table and all irrelevant variables false' (%s)" % (err,), case, cls={"op": "only", "predicate": ocls})
 
